@@ -195,6 +195,38 @@ func c18RoundTrip(w *enga.World) (bad []string) {
 			}
 		}
 	}
+	// the same export initialised after a pause (genesis time one hour later, as when operators
+	// restart a halted network): what is stored must not depend on when the chain is started -
+	// nothing that was pending (unlocks maturing meanwhile, elections falling due) may be lost
+	if len(bad) == 0 {
+		el2, err := n.EL.Fork()
+		must(err)
+		late, err := sim.NewNode(n.Cfg, el2, dbm.NewMemDB())
+		must(err)
+		func() {
+			defer func() {
+				if p := recover(); p != nil {
+					bad = append(bad, fmt.Sprintf("import-after-a-pause-panics: %v", p))
+				}
+			}()
+			lt := n.Time.Add(time.Hour)
+			if _, err := late.App.InitChain(&abci.RequestInitChain{Time: lt, ChainId: n.Cfg.ChainID, ConsensusParams: &exp.ConsensusParams,
+				AppStateBytes: exp.AppState, InitialHeight: exp.Height}); err != nil {
+				bad = append(bad, "import-after-a-pause-fails: "+err.Error())
+				return
+			}
+			lctx := late.App.NewContextLegacy(false, cmtproto.Header{ChainID: n.Cfg.ChainID, Height: exp.Height, Time: lt})
+			ld := late.DumpStores(lctx, "relayer", "bitcoin", "locking", "goat")
+			for _, d := range sd.Diff(ld) {
+				if strings.HasPrefix(d, "relayer/05") {
+					continue
+				}
+				bad = append(bad, "store-differs-after-import-after-a-pause:"+d)
+			}
+		}()
+		late.Close()
+		el2.Close()
+	}
 	// the imported chain keeps producing blocks
 	if len(bad) == 0 {
 		imp.Height, imp.Time, imp.LastHash = exp.Height-1, n.Time, bytes.Clone(n.LastHash)
@@ -256,7 +288,7 @@ func runC18(r *mc.Run) {
 		r.SetBudget(170 * 1e9)
 	}
 	r.Bounds["depth_blocks"] = depth
-	r.Rule = "tree search over block histories of the real application producing pending / active / zero-power / jailed-path / tombstoned / exiting validators, pending and boarding voters (also several membership changes of a group of four queued between two elections), in-flight and cancelling withdrawals, non-empty queues, pending unlocks, voted hashes, credited deposits and bridge-parameter corners; in every visited state: ExportAppStateAndValidators -> InitChain on a fresh App must succeed, return the exported active set, re-export identically (per module), reproduce every module store (boarding queue as a multiset), answer every gRPC query of the goat modules and the auth account queries identically (every method, every argument denoting something in the state plus unknown ones, through the registered query routes), satisfy the ranking / set / group invariants, and produce a block"
+	r.Rule = "tree search over block histories of the real application producing pending / active / zero-power / jailed-path / tombstoned / exiting validators, pending and boarding voters (also several membership changes of a group of four queued between two elections), in-flight and cancelling withdrawals, non-empty queues, pending unlocks, voted hashes, credited deposits and bridge-parameter corners; in every visited state: ExportAppStateAndValidators -> InitChain on a fresh App must succeed, return the exported active set, re-export identically (per module), reproduce every module store (boarding queue as a multiset), answer every gRPC query of the goat modules and the auth account queries identically (every method, every argument denoting something in the state plus unknown ones, through the registered query routes), satisfy the ranking / set / group invariants, reproduce the same stores when initialised with a genesis time one hour later, and produce a block"
 	r.Assumptions = []string{"the re-export reads the imported state through the finalize-state context right after InitChain (no block in between)"}
 	for _, rt := range c18Roots(r.Thorough()) {
 		rt := rt
